@@ -15,6 +15,7 @@
 From stdpp Require Import gmap strings sorting.
 Require Import Grits.Base Grits.Forms Grits.Expand Grits.TcTop Grits.Runtime.
 Require Import Grits.RuntimeFootprint Grits.proofs.RuntimeFacts Grits.proofs.Diamond Grits.proofs.Determinism Grits.proofs.AsyncSync Grits.proofs.RuntimeCheckFacts Grits.proofs.ForkJoin Grits.proofs.DeterminismExamples.
+Require Import Grits.Tc Grits.spec.RtTyping Grits.spec.Topo Grits.proofs.RtSafety Grits.proofs.RtInit Grits.proofs.RtTheorems Grits.proofs.DeterminismTyped.
 
 Theorem C03_step_is_move : forall md D F c ch, step md D F c ch = sres_of c (move_of md D F c ch).
 Proof. exact step_move. Qed.
@@ -176,6 +177,45 @@ Theorem C03_exec_check_run : forall fuel pick md D F c st,
   (exec_check fuel pick md D F c st).1 = exec_run fuel pick md D F c.
 Proof. exact exec_check_run. Qed.
 
+(* TYPED: the hypotheses of C03_determinism_partial discharged from the run-time typing of C01 and the
+   forest invariant Topo.  For a typed forest any two distinct enabled choices are independent ... *)
+Theorem C03_typed_async_discipline : forall D F teq, teq_laws D teq -> funs_typed D F teq ->
+  forall Δ c, cfg_typed D F teq Δ c -> Topo c -> async_discipline D c.
+Proof. exact typed_async_discipline. Qed.
+
+Theorem C03_typed_sync_discipline : forall D F teq, teq_laws D teq -> funs_typed D F teq ->
+  forall Δ c, cfg_typed D F teq Δ c -> Topo c -> bufs_empty c -> sync_discipline D F c.
+Proof. exact typed_sync_discipline. Qed.
+
+(* ... hence determinism for every accepted closed program in both polarized modes.  The three
+   premises are those of C01 / C02 (proofs/RtTheorems.v): type equality satisfies teq_laws, the
+   checker's annotated output is typed in the run-time judgement, every reachable configuration is
+   a forest (Topo). *)
+Theorem C03_determinism_typed : forall (teqD : STypes.tenv -> STypes.sty -> STypes.sty -> Prop),
+  (forall p p', typecheck p = Accept p' -> teq_laws (p_types p') (teqD (p_types p'))) ->
+  (forall p p', typecheck p = Accept p' -> in_fragment p' -> static_typed (teqD (p_types p')) p') ->
+  (forall p p' md c, typecheck p = Accept p' -> in_fragment p' -> is_np md = false ->
+     reachable (p_types p') (p_funs p') md (init_config p') c -> Topo c) ->
+  forall p p' md pick1 pick2 f1 f2 t1,
+    typecheck p = Accept p' -> in_fragment p' -> is_np md = false ->
+    exec_run f1 pick1 md (p_types p') (p_funs p') (init_config p') = RQuiescent t1 -> (f1 <= f2)%nat ->
+    exists t2, exec_run f2 pick2 md (p_types p') (p_funs p') (init_config p') = RQuiescent t2 /\
+               cfg_equiv t2 t1 /\ labels t2 ≡ₚ labels t1.
+Proof. exact determinism_typed. Qed.
+
+Theorem C03_async_sync_agree_typed : forall (teqD : STypes.tenv -> STypes.sty -> STypes.sty -> Prop),
+  (forall p p', typecheck p = Accept p' -> teq_laws (p_types p') (teqD (p_types p'))) ->
+  (forall p p', typecheck p = Accept p' -> in_fragment p' -> static_typed (teqD (p_types p')) p') ->
+  (forall p p' md c, typecheck p = Accept p' -> in_fragment p' -> is_np md = false ->
+     reachable (p_types p') (p_funs p') md (init_config p') c -> Topo c) ->
+  forall p p' pick1 f1 t1,
+    typecheck p = Accept p' -> in_fragment p' ->
+    exec_run f1 pick1 Sync (p_types p') (p_funs p') (init_config p') = RQuiescent t1 ->
+    exists n, forall pick2 f2, (n < f2)%nat ->
+      exists t2, exec_run f2 pick2 Async (p_types p') (p_funs p') (init_config p') = RQuiescent t2 /\
+                 labels t2 ≡ₚ labels t1.
+Proof. exact async_sync_agree_typed. Qed.
+
 (* UNCONDITIONAL, for a syntactic class (fork-join configurations: close self / wait / new with a
    closed child / print / parameterless calls, one provider per process; `FJ c` is a structural
    property of the configuration, decided by `fj_cfg_b`): no invariant hypothesis is left. *)
@@ -260,6 +300,10 @@ Print Assumptions C03_no_longer_run.
 Print Assumptions C03_bufs_empty_init.
 Print Assumptions C03_sync_run_matched.
 Print Assumptions C03_async_sync_agree_partial.
+Print Assumptions C03_typed_async_discipline.
+Print Assumptions C03_typed_sync_discipline.
+Print Assumptions C03_determinism_typed.
+Print Assumptions C03_async_sync_agree_typed.
 Print Assumptions C03_forkjoin_invariant.
 Print Assumptions C03_forkjoin_determinism.
 Print Assumptions C03_forkjoin_error_excludes_completion.
